@@ -32,7 +32,9 @@ def gen_cases(tier, seed):
 
 def build(case):
     pr = G.generate(case["seed"], G.Opts(assign=False, while_loops=False, errors=0.0, n_main=6, n_funs=2, shadow=0.5))
-    src, p = printer.print_program(pr)
+    # half of the programs are printed WITHOUT parameter / return annotations: values then have `Any` inside their
+    # inferred types (tuples, lists, options of un-annotated parameters), which the tools must not write as hints
+    src, p = printer.print_program(pr, annotate=(case["seed"] % 2 == 0))
     return pr, src, p
 
 
@@ -103,14 +105,30 @@ def run_case(case, sc):
              if e["pure"] and e["total"] and e["k"] not in ("var", "int", "bool", "str", "unit", "none", "lambda")
              and e["ty"] != G.UNIT and not (isinstance(e["ty"], list) and e["ty"][0] == "Fun")]
     if len(cands) > 5:
-        cands = rng.sample(cands, 5)
+        # in un-annotated programs favour selections whose inferred type has an un-annotated parameter inside a
+        # composite type (tuple, list, option ...): those are the types a hint cannot spell
+        param_bids = {b for f in pr["funs"] for _, b, _ in f["params"]}
+
+        def score(c):
+            e = c[0]
+            uses = []
+            G.walk(e, lambda n: uses.append(1) if n.get("k") == "var" and n.get("bid") in param_bids else None)
+            comp = isinstance(e["ty"], list) and e["ty"][0] in ("Tuple", "List", "Option", "Result")
+            return (2 if (uses and comp) else 1 if uses else 0)
+        bare = case["seed"] % 2 == 1
+        rng.shuffle(cands)
+        if bare:
+            cands.sort(key=score, reverse=True)
+            cands = cands[:3] + rng.sample(cands[3:], 2)
+        else:
+            cands = cands[:5]
     keys = set()
     for e, st, en in cands:
         for tool in ("variable", "function"):
             r = core.run_garden(["reftest-extract-" + tool, path, str(st), str(en), "--name", "verif_extracted"],
                                 timeout=30, cwd=sc.dir)
             ctx = enc.get(id(e), "?")
-            kbase = "%s|%s|%s|%s" % (tool, e["k"], ctx, "vars" if has_var(e) else "closed")
+            kbase = "%s|%s|%s|%s|%s" % (tool, e["k"], ctx, "vars" if has_var(e) else "closed", "annotated" if case["seed"] % 2 == 0 else "bare")
             detail = {"src": src, "selection": [st, en], "selected_text": src[st:en], "tool": tool}
             wit = dict(case, only=[st, en, tool])
             if r.cls in core.CRASH:
